@@ -49,6 +49,7 @@ type obs struct {
 	Extra   map[string]string
 	dec     map[*drive.Msg]any
 	fields  []field
+	Chunk   int // > 0: the tapes of this run served at most Chunk bytes per Read
 }
 
 func (o *obs) decoded(m *drive.Msg) any {
